@@ -36,6 +36,13 @@ def handle (S : Schema) (line : String) : String :=
     match parseTy t with
     | some ty => decOp S ty h
     | none => "bad-op"
+  | ["enc", t, sx] =>
+    match parseTy t, parseValue sx with
+    | some ty, some v =>
+      match encGo S ty v with
+      | some e => toHex e
+      | none => "none"
+    | _, _ => "bad-op"
   | ["cap", n] =>
     match n.toNat? with
     | some n => toString (vecCap n)
